@@ -307,3 +307,27 @@ refactor("R8-2", ["C04", "C08", "C09"])
 refactor("R8-3", ["C05", "C06", "C10", "C17"])
 refactor("R8-4", ["C16", "C17", "C19"])
 refactor("R8-5", ["C04", "C18", "C19"])
+
+# breaks planted in round-3 refactored code
+brk_on("R6-2", "on-R6-2-frame-callback-skips-empty-output", ["C10"],
+    [("jpeg2000/lossless/codec.go", "		if err := newPixelData.AddFrame(encoded); err != nil {\n			return fmt.Errorf(\"failed to add encoded frame %d: %w\", frameIndex, err)\n		}\n		return nil\n	})",
+      "		if len(encoded) == 0 {\n			return nil\n		}\n		if err := newPixelData.AddFrame(encoded); err != nil {\n			return fmt.Errorf(\"failed to add encoded frame %d: %w\", frameIndex, err)\n		}\n		return nil\n	})")],
+    "ORDER-FRAMES", "lossless")
+brk_on("R7-3", "on-R7-3-check-table-loses-code-block-check", ["C17"],
+    [("jpeg2000/encoder.go", "		checkCodeBlockSize,\n", "")],
+    "DIV", "CodeBlock")
+brk_on("R7-1", "on-R7-1-builder-emit-length-excludes-itself", ["C16"],
+    [("jpeg2000/encoder_markers.go", "	binary.BigEndian.PutUint16(head[2:4], uint16(len(s.payload)+2))", "	binary.BigEndian.PutUint16(head[2:4], uint16(len(s.payload)))")],
+    "BYTES", "emit")
+brk_on("R8-1", "on-R8-1-dispatch-table-entries-swapped", ["C04"],
+    [("jpeg2000/t2/packet_encoder_order.go", "	ProgressionLRCP: (*PacketEncoder).walkLRCP,\n	ProgressionRLCP: (*PacketEncoder).walkRLCP,", "	ProgressionLRCP: (*PacketEncoder).walkRLCP,\n	ProgressionRLCP: (*PacketEncoder).walkLRCP,")],
+    "EXHAUST-PROG", "progression")
+brk_on("R7-5", "on-R7-5-bit-writer-appends-raw-byte", ["C16"],
+    [("jpeg2000/t2/packet_header_bitio.go", "func (bw *bioWriter) writeBits(value, n int) {\n", "func (bw *bioWriter) writeBits(value, n int) {\n	if n == 8 && bw.free == bioByteBits {\n		bw.data = append(bw.data, byte(value))\n		return\n	}\n")],
+    "OWNER-SINK", "bioWriter")
+brk_on("R6-1", "on-R6-1-shared-frame-loop-skips-last-frame", ["C10"],
+    [("jpeg/baseline/frames.go", "	for frameIndex := range frameCount {", "	for frameIndex := range frameCount - 1 {")],
+    "ORDER-FRAMES", "baseline")
+brk_on("R6-5", "on-R6-5-raw-emit-helper-called-from-write-bits", ["C16"],
+    [("jpeg/standard/huffman_encoder.go", "	if n == 0 {\n		return nil\n	}\n", "	if n == 0 {\n		return nil\n	}\n	if n == 8 && e.nBits == 0 {\n		return e.emit(byte(bits))\n	}\n")],
+    "OWNER-SINK", "HuffmanEncoder")
